@@ -28,7 +28,8 @@ def setup_worker():
     net = simnet.Net(seams.Clock(0))
     net.install()
     seams.rebind(mining, 'time', net.clock)
-    uni = ledger.tx_universe('easy')
+    # root target 2^255: about every second nonce wins, so runs contain losing requests before the winning one
+    uni = ledger.tx_universe('easy', root_target=(1 << 255).to_bytes(32, 'big'))
     # save_wallet writes wallet.json(.new) into the cwd: one private directory per worker process
     d = os.path.join(os.getcwd(), 'c12-%d' % os.getpid())
     os.makedirs(d, exist_ok=True)
@@ -144,11 +145,35 @@ def one_run(hist, pool_names, off, inter, uni_kind='easy'):
     mw.network_thread = NT()
     mw.public_key = wallet.get_annotated_public_key("reserved for potentially mined block")
     miner_pub = mw.public_key
-    # ---- play the miner process
+    # ---- play the miner process: request / result rounds; the intervening event is injected at position `ipos`:
+    #      ('after-request', j) = between the j-th work request and its result, ('after-result', j) = after that result
+    ikind, ipos = (inter if isinstance(inter, tuple) else (inter, ('after-request', 0)))
     found = None
     served_at_request = None
+    parent_node = H
     escaped = None
-    for nonce in range(0, 4000):
+    cur = {'head': H}
+
+    def inject():
+        if ikind == 'competing-block':
+            # a valid block on the same parent whose time lies between the clock and the future limit
+            ts = max(H.ts + 1, clock + 10)
+            if ts > clock + 30:
+                return
+            compb = world.assemble(H, [], K[5], ts, cb_data=b'competitor')
+            comp = world.Node(compb, H, path=H.path + ('comp',))
+            from skepticoin.networking.messages import DataMessage, DATA_BLOCK
+            peers[0].send(DataMessage(DATA_BLOCK, world.from_wire(compb)))
+            if comp.bid in node.cm.coinstate.block_by_hash:
+                info['competitor_stored'] = True
+                if node.cm.coinstate.current_chain_hash == comp.bid:
+                    cur['head'] = comp
+        elif ikind == 'pool-gains-tx':
+            extra = [t for nm, t in menu.items() if nm not in pool_names]
+            if extra:
+                node.cm.add_transaction_to_pool(extra[0])
+    clock = H.ts + off
+    for nonce in range(0, 200):
         net.current = node
         try:
             mw.handle_request_scrypt_input_message(0, nonce)
@@ -157,21 +182,11 @@ def one_run(hist, pool_names, off, inter, uni_kind='easy'):
             break
         kind, (summary, height) = mw.send_queues[0].items[-1]
         served_at_request = (node.cm.coinstate, list(node.cm.transaction_pool))
-        if nonce == 0 and inter != 'none':
-            if inter == 'competing-block':
-                comp = uni.get(H.path + ('x',))
-                from skepticoin.networking.messages import DataMessage, DATA_BLOCK
-                net.clock.t = max(net.clock.t, comp.ts - 30)
-                peers[0].send(DataMessage(DATA_BLOCK, world.from_wire(comp.block)))
-                net.clock.t = H.ts + off
-                info['competitor_stored'] = comp.bid in node.cm.coinstate.block_by_hash
-            elif inter == 'pool-gains-tx':
-                extra = [t for nm, t in menu.items() if nm not in pool_names]
-                if extra:
-                    node.cm.add_transaction_to_pool(extra[0])
+        parent_node = cur['head']
+        if ikind != 'none' and ipos == ('after-request', nonce):
+            inject()
         sh = consensus.construct_summary_hash(summary, height)
         before_cm_head = node.cm.coinstate.current_chain_hash
-        nsaved = len(mw.mining_args)
         try:
             mw.handle_scrypt_output_message(0, sh)
         except Exception as e:
@@ -179,13 +194,18 @@ def one_run(hist, pool_names, off, inter, uni_kind='easy'):
         node.flush()         # the selector loop would now write out what the handler queued
         s_, h_, txs_ = mw.mining_args[0]
         from skepticoin.datatypes import Block, BlockHeader
-        ev = consensus.construct_pow_evidence_after_scrypt(sh, served_at_request[0], s_, h_, txs_)
-        blk = Block(BlockHeader(s_, ev), txs_)
-        if blk.hash() < blk.target:
-            found = blk
-            break
+        try:
+            ev = consensus.construct_pow_evidence_after_scrypt(sh, served_at_request[0], s_, h_, txs_)
+            blk = Block(BlockHeader(s_, ev), txs_)
+            if blk.hash() < blk.target:
+                found = blk
+                break
+        except Exception as e:
+            escaped = escaped or ('evidence', e)
         if escaped:
             break
+        if ikind != 'none' and ipos == ('after-result', nonce):
+            inject()
     if found is None:
         store.close()
         if escaped:
@@ -193,7 +213,7 @@ def one_run(hist, pool_names, off, inter, uni_kind='easy'):
         return bad, {'skip': 'no block found'}
     info['found'] = True
     bid = enc.blockid(found)
-    clock = H.ts + off
+    H0, H = H, parent_node          # the head served when the winning candidate was requested
     # ---- the found block itself
     tags = refmodel.validate_block(found, H, clock)
     try:
@@ -267,8 +287,9 @@ def configs(ctx):
             for sub in subsets:
                 for off in OFFSETS:
                     inters = ['none']
-                    if off in (0, 120) and len(sub) <= 1:
-                        inters += ['competing-block', 'pool-gains-tx']
+                    if off in (-1, 0, 120) and len(sub) <= 1:
+                        for pos in (('after-request', 0), ('after-request', 1), ('after-result', 0)):
+                            inters += [('competing-block', pos), ('pool-gains-tx', pos)]
                     for it in inters:
                         out.append((hist, sub, off, it))
     return out, [len(l) for l in levels]
@@ -312,7 +333,8 @@ def run(ctx):
         for key, what, cfg in bad:
             ctx.violation(key, "%s; ledger history %s, pool %s, clock offset %+d, intervening event %s" % (
                 what, ledger.hist_str(cfg[0]), list(cfg[1]), cfg[2], cfg[3]),
-                {'hist': [list(p) for p in cfg[0]], 'pool': list(cfg[1]), 'off': cfg[2], 'inter': cfg[3]})
+                {'hist': [list(p) for p in cfg[0]], 'pool': list(cfg[1]), 'off': cfg[2],
+                 'inter': cfg[3] if isinstance(cfg[3], str) else [cfg[3][0], list(cfg[3][1])]})
     ctx.cov.update({
         'states': sum(per_level), 'transitions': tot['runs'], 'traces_validated_against_impl': tot['found'],
         'samples': [{'history': ledger.hist_str(cfgs[0][0]), 'pool': list(cfgs[0][1]), 'clock_offset': cfgs[0][2], 'event': cfgs[0][3]}],
@@ -327,5 +349,6 @@ def run(ctx):
 def replay(data, ctx):
     setup_worker()
     with contextlib.redirect_stdout(io.StringIO()):
-        bad, info = one_run(tuple(tuple(p) for p in data['hist']), tuple(data['pool']), data['off'], data['inter'])
+        it = data['inter'] if isinstance(data['inter'], str) else (data['inter'][0], tuple(data['inter'][1]))
+        bad, info = one_run(tuple(tuple(p) for p in data['hist']), tuple(data['pool']), data['off'], it)
     return list(bad or [])
